@@ -47,7 +47,7 @@ type c03Op struct {
 func (p *c03) Bounds(tier string) map[string]interface{} {
 	B, d := c03Bounds(tier)
 	return map[string]interface{}{"B(|S|+|T|)": B, "bfs_depth": d, "schemas": []string{"base", "keys"}, "stores": append(append([]string{}, store.Impls...), store.StructImpls...),
-		"sources": []string{"ref", "json"}, "strategies": []string{"upsert", "insert", "update"}, "directions": []string{"from", "into"},
+		"sources": []string{"ref", "json", "xml"}, "strategies": []string{"upsert", "insert", "update"}, "directions": []string{"from", "into"},
 		"value alphabet": "2 values per leaf, 3 keys per list (4 tuples for compound keys), <=2 entries per list"}
 }
 
@@ -71,6 +71,9 @@ func (p *c03) Cases(tier string, emit func(interface{})) {
 				for _, entry := range c03Entries[schema] {
 					emit(c03Case{Part: "pairs", Schema: schema, Store: st, Source: "ref", Strat: strat, Dir: "from", Entry: entry, B: B})
 					emit(c03Case{Part: "pairs", Schema: schema, Store: st, Source: "json", Strat: strat, Dir: "from", Entry: entry, B: B})
+					if !store.IsStructImpl(st) {
+						emit(c03Case{Part: "pairs", Schema: schema, Store: st, Source: "xml", Strat: strat, Dir: "from", Entry: entry, B: B})
+					}
 					emit(c03Case{Part: "pairs", Schema: schema, Store: st, Source: "ref", Strat: strat, Dir: "into", Entry: entry, B: B})
 				}
 			}
